@@ -1,0 +1,97 @@
+//go:build verif
+
+// Machine-checked contracts (Gobra-style //@ comments) for the verification harness in /verif.
+// This file contains no code; it is compiled only under the build tag "verif".
+package wire
+
+// ---------------------------------------------------------------------------------------------
+// primitive decoders (C18): total on every input, never allocate beyond the caller's limit
+
+//@ func uvarintSize
+//@   props C18
+//@   pure
+//@   ensures 0 <= result && result <= 8 && (result == 0) == (i == 0)
+
+//@ func setFirstErr
+//@   props C18
+//@   requires err != nil
+//@   assigns  *err
+//@   ensures  [first-error-sticks] old(*err) != nil ==> *err == old(*err)
+//@   ensures  old(*err) == nil ==> *err == newErr
+
+//@ func ReadFull
+//@   props C18
+//@   requires n != nil && err != nil
+//@   assigns  *n, *err
+//@   ensures  old(*err) != nil ==> *err == old(*err) && *n == old(*n)
+//@   ensures  [counts-what-it-read] old(*err) == nil && *err == nil ==> *n == old(*n) + len(buf)
+//@   ensures  *n >= old(*n)
+
+//@ func ReadUint8
+//@   trusted
+//@   assigns  *n, *err
+//@   ensures  old(*err) != nil ==> *err == old(*err)
+//@   ensures  *n >= old(*n)
+
+//@ func ReadVarint
+//@   props C18 C08
+//@   requires n != nil && err != nil
+//@   assigns  *n, *err
+//@   ensures  [sticky-error] old(*err) != nil ==> *err != nil
+//@   ensures  *n >= old(*n)
+
+//@ func ReadUvarint
+//@   props C18 C08
+//@   requires n != nil && err != nil
+//@   assigns  *n, *err
+//@   ensures  [sticky-error] old(*err) != nil ==> *err != nil
+//@   ensures  *n >= old(*n)
+
+//@ func ReadByteSlice
+//@   props C18 C08
+//@   requires n != nil && err != nil && old(*n) >= 0
+//@   assigns  *n, *err
+//@   ensures  [never-allocates-beyond-the-limit] lmt != 0 && result != nil ==> len(result) <= lmt
+//@   ensures  [error-returns-nothing] old(*err) != nil ==> result == nil
+//@   ensures  *n >= old(*n)
+
+//@ func ReadByteSlices
+//@   props C18 C08
+//@   requires n != nil && err != nil && old(*n) >= 0
+//@   assigns  *n, *err
+//@   ensures  [never-allocates-beyond-the-limit] lmt != 0 && result != nil ==> len(result) <= lmt
+//@   loop 0 invariant 0 <= i && len(bzz) == length && *n >= 0
+
+//@ func GetVarint
+//@   props C18 C08
+//@   ensures  [consumes-within-buffer] err == nil ==> 1 <= n && n <= len(buf) && n <= 9
+//@   ensures  err != nil ==> n == 0 && i == 0
+
+//@ func GetUvarint
+//@   props C18 C08
+//@   ensures  [consumes-within-buffer] err == nil ==> 1 <= n && n <= len(buf) && n <= 9
+//@   ensures  err != nil ==> n == 0 && i == 0
+
+//@ func PutVarint
+//@   props C18
+//@   ensures  [writes-within-buffer] err == nil ==> 1 <= n && n <= len(buf) && n <= 9
+//@   ensures  err != nil ==> n == 0
+
+//@ func PutUvarint
+//@   props C18
+//@   ensures  [writes-within-buffer] err == nil ==> 1 <= n && n <= len(buf) && n <= 9
+//@   ensures  err != nil ==> n == 0
+
+//@ func GetByteSlice
+//@   props C18 C08
+//@   ensures  [consumes-within-buffer] err == nil ==> 1 <= n && n <= len(buf) && len(bz) <= len(buf)
+//@   ensures  err != nil ==> n == 0 && bz == nil
+
+//@ func PutByteSlice
+//@   props C18
+//@   ensures  [writes-within-buffer] err == nil ==> n <= len(buf) && n >= len(bz) + 1
+//@   ensures  err != nil ==> n == 0
+
+//@ func GetString
+//@   props C18
+//@   ensures  [consumes-within-buffer] err == nil ==> 1 <= n && n <= len(buf)
